@@ -254,7 +254,8 @@ func submitCopyRule(p *Prog, r *Report, rule string) {
 				for _, in2 := range b2.Instrs {
 					if c, ok := in2.(*ssa.Call); ok {
 						if bi, isB := c.Call.Value.(*ssa.Builtin); isB && bi.Name() == "copy" && len(c.Call.Args) == 2 {
-							if unwrap(c.Call.Args[0]) == unwrap(s.X) && isParam(c.Call.Args[1], fn, 1) && dominates(c, s) {
+							srcIsParam := isParam(c.Call.Args[1], fn, 1) || (len(fn.Params) > 1 && flowsFromLocal(c.Call.Args[1], func(x ssa.Value) bool { return x == ssa.Value(fn.Params[1]) }))
+							if (unwrap(c.Call.Args[0]) == unwrap(s.X) || commonOrigin(c.Call.Args[0], s.X)) && srcIsParam && dominates(c, s) {
 								copied = true
 							}
 						}
